@@ -107,7 +107,8 @@ def run(rep, tier, seed):
     kinds = {}
     scripts = []; metas = []
     for i in range(n):
-        b = imgbuilder.Builder(rng).build()
+        # the first two volumes of every run: exactly maximal FAT12 / FAT16 volumes with a chain through the highest cluster number
+        b = imgbuilder.Builder(rng, force_top={0: 12, 1: 16}.get(i)).build()
         path = os.path.join(cache, "img%d.txt" % i)
         open(path, "w").write(b.sparse_text())
         key = "fat%d bps%d spc%d fats%d %s" % (b.bits, b.bps, b.spc, b.fats, "mirror" if b.mirror else "active%d" % b.active)
@@ -122,6 +123,8 @@ def run(rep, tier, seed):
         newf = "/".join(dpath + ["added by the library (long name).bin"])
         newd = "/".join(dpath + ["NEWDIR"])
         victim = rng.choice(files) if files and rng.chance(2, 3) else None
+        if b.force_top:
+            victim = [f for f in files if f[0][-1].upper() == "TOPCHAIN.BIN"][0]
         mut = ["create_file 0 %s 90" % hexs(newf), "write_pat 90 %d 3" % rng.range(1, 3 * b.cs), "drop_file 90",
                "create_dir 0 %s 0" % hexs(newd), "create_file 0 %s 91" % hexs(newd + "/x.txt"), "write_pat 91 10 1", "drop_file 91"]
         if victim:
